@@ -543,55 +543,28 @@ theorem tt4Activate_act (t : TagType) (s : St) (h : HasT s) : ActPost true s (tt
     | some d => exact ⟨hn, by simp⟩
   | error e => exact ⟨hn, by intro e' h'; cases h'; exact he e rfl⟩
 
-/-- targets `nfc.tag.activate` cannot handle (open findings): found by `sense_dep` (brty 106A,
-no `sens_res`), or a Type A answer whose SENS_RES byte 1 says "Type 1 Tag" although byte 0 does not
-(no RID response was requested) -/
-def TypeErrTarget (f : Found) : Prop :=
-  (f.tech = 1 ∧ f.sens.getD 1 0 % 16 = 12 ∧ f.rid.isEmpty = true) ∨ (f.tech ≠ 1 ∧ f.tech ≠ 2 ∧ f.tech ≠ 3)
-
-instance (f : Found) : Decidable (TypeErrTarget f) := by unfold TypeErrTarget; infer_instance
-
-theorem activateBody_act (f : Found) (s : St) (h : HasT s) :
-    NExt s (activateBody f s).2 ∧
-    ∀ e, (activateBody f s).1 = .error e →
-      DevErr e ∨ isCommErr e = true ∨ (e = .type_ ∧ TypeErrTarget f ∧ (activateBody f s).2 = s) := by
-  have lift : ∀ {c : Bool} {r : R (Option TagType)}, ActPost c s r →
-      NExt s r.2 ∧ ∀ e, r.1 = .error e → DevErr e ∨ isCommErr e = true ∨ (e = .type_ ∧ TypeErrTarget f ∧ r.2 = s) := by
-    intro c r hp
-    refine ⟨hp.1, fun e he => ?_⟩
-    rcases hp.2 e he with h1 | ⟨_, h1⟩
-    · exact Or.inl h1
-    · exact Or.inr (Or.inl h1)
+theorem activateBody_act (f : Found) (s : St) (h : HasT s) : ActPost true s (activateBody f s) := by
   unfold activateBody
   split
-  · rename_i ht1
-    split
-    · rename_i hs12
-      split
-      · rename_i hrid
-        exact ⟨NExt.refl s, by intro e he; cases he; exact Or.inr (Or.inr ⟨rfl, Or.inl ⟨ht1, hs12, hrid⟩, rfl⟩)⟩
-      · exact lift (ActPost.done false s _)
-    · split
-      · exact lift (tt2Activate_act f s h)
-      · split
-        · exact lift (tt4Activate_act .tt4a s h)
-        · exact lift (ActPost.done false s _)
   · split
-    · exact lift (tt4Activate_act .tt4b s h)
+    · split <;> exact ActPost.done true s _
     · split
-      · split <;> exact lift (ActPost.done false s _)
-      · rename_i h1 h2 h3
-        exact ⟨NExt.refl s, by intro e he; cases he; exact Or.inr (Or.inr ⟨rfl, Or.inr ⟨h1, h2, h3⟩, rfl⟩)⟩
+      · exact (tt2Activate_act f s h).weaken
+      · split
+        · exact tt4Activate_act .tt4a s h
+        · exact ActPost.done true s _
+  · split
+    · exact tt4Activate_act .tt4b s h
+    · split
+      · split <;> exact ActPost.done true s _
+      · exact ActPost.done true s _
 
 /-- `nfc.tag.activate` appends only the `act` event and driver calls; it raises only device errors
 (IOError, KeyboardInterrupt, the UnsupportedTargetError of a nested single-target `sense()`): every
-CommunicationError of every activation command is absorbed - except the TypeError for a target it
-cannot handle, raised before any command was sent. -/
+CommunicationError of every activation command is absorbed, and (after the repairs fixes/C18/0003,
+0004) no target data makes it raise anything else. -/
 theorem tagActivate_act (f : Found) (s : St) (h : HasT s) :
-    NExt s (tagActivate f s).2 ∧
-    ∀ e, (tagActivate f s).1 = .error e →
-      DevErr e ∨ (e = .type_ ∧ TypeErrTarget f ∧
-        (tagActivate f s).2.log = s.log ++ [.call .activate (.found f)]) := by
+    NExt s (tagActivate f s).2 ∧ ∀ e, (tagActivate f s).1 = .error e → DevErr e := by
   have hem : NExt s (s.emit (.call .activate (.found f))) := ⟨[_], rfl, by simp [Ev.neutral]⟩
   have hT : HasT (s.emit (.call .activate (.found f))) := h
   obtain ⟨hn, he⟩ := activateBody_act f (s.emit (.call .activate (.found f))) hT
@@ -609,11 +582,9 @@ theorem tagActivate_act (f : Found) (s : St) (h : HasT s) :
       refine ⟨hem.trans hn, ?_⟩
       intro e' h'
       cases h'
-      rcases he e rfl with h1 | h1 | ⟨h1, h2, h3⟩
-      · exact Or.inl h1
+      rcases he e rfl with h1 | ⟨_, h1⟩
+      · exact h1
       · exact absurd h1 hc
-      · simp only at h3
-        exact Or.inr ⟨h1, h2, by rw [h3]; rfl⟩
 
 /-! ## monitor transitions of the single events -/
 
